@@ -66,6 +66,8 @@ def main(argv):
                 rc, out = sh("git", "-C", wt, "revert", "--no-commit", m["revert"])
             else:
                 rc, out = sh("git", "-C", wt, "apply", m["patch"])
+                if rc:      # (written against an earlier fix: commit; the surrounding lines moved)
+                    rc, out = sh("git", "-C", wt, "apply", "--3way", m["patch"])
             if rc:
                 print(f"{m['name']}: patch does not apply: {out[-200:]}")
                 results.append({"mutant": m["name"], "applies": False})
